@@ -107,8 +107,11 @@ class Model:
     precondition; ``key_dedup`` the functional-dependency precondition of the
     iteration engine's key-only deduplication."""
 
-    def __init__(self, leaves: dict, sql_slices: bool = False, key_dedup: bool = False, strict_fragile: bool = False):
+    def __init__(self, leaves: dict, sql_slices: bool = False, key_dedup: bool = False, strict_fragile: bool = False, ordered_engines=()):
         self.leaves = leaves
+        # engines whose leaves deliver rows in a defined (payload) order; entering any other
+        # engine through a transfer forgets the order
+        self.ordered_engines = set(ordered_engines)
         self.sql_slices = sql_slices
         self.key_dedup = key_dedup
         self.strict_fragile = strict_fragile
@@ -132,10 +135,14 @@ class Model:
             spec = self.leaves[prog[1]]
             cols = list(spec["cols"])
             rows = [dict(zip(cols, r)) for r in spec["rows"]]
-            return MRel(frozenset(cols), rows, len(rows) <= 1)
-        if op in ("mat", "xfer"):
+            return MRel(frozenset(cols), rows, len(rows) <= 1 or spec.get("engine") in self.ordered_engines)
+        if op == "mat":
             t = self.eval(prog[1])
             return dataclasses.replace(t, rows=list(t.rows))
+        if op == "xfer":
+            t = self.eval(prog[1])
+            keep = t.det and (not self.ordered_engines or prog[2] in self.ordered_engines)
+            return dataclasses.replace(t, rows=list(t.rows), det=keep)
         if op == "chain":
             a, b = self.eval(prog[1]), self.eval(prog[2])
             if a.cols != b.cols:
